@@ -76,8 +76,8 @@ theorem clos_setNode {inp : Input} {s : Sys} {n : Name} {nd x : Node} (h : ClosI
 /-- a new node for a task of the table that is in the closure -/
 theorem clos_newNode {inp : Input} {s : Sys} {d : Name} {td : TDef} (anc : List Name) (h : ClosInv inp s)
     (hd : s.nodes d = none) (ht : s.tasks d = some td) (hin : InClos inp s d) :
-    ClosInv inp (setNode s d (mkNode td anc)) := by
-  have hm : ∀ p k, k ∈ nodeDeps s p → k ∈ nodeDeps (setNode s d (mkNode td anc)) p ∨ k ∈ origDeps inp p := by
+    ClosInv inp (setNode s d (mkNodeI s₀ d₀ td anc)) := by
+  have hm : ∀ p k, k ∈ nodeDeps s p → k ∈ nodeDeps (setNode s d (mkNodeI s₀ d₀ td anc)) p ∨ k ∈ origDeps inp p := by
     intro p k hk
     rw [nodeDeps_setNode]
     by_cases hp : p = d
@@ -88,7 +88,7 @@ theorem clos_newNode {inp : Input} {s : Sys} {d : Name} {td : TDef} (anc : List 
     simp only [setNode] at hk
     split at hk
     · rename_i e; subst e; cases hk
-      exact ⟨hin.mono hm, ⟨fun x hx => hx, fun ds e => by simp [mkNode] at e⟩, fun hl => h.tab k td ht hl⟩
+      exact ⟨hin.mono hm, ⟨fun x hx => hx, fun ds e => by simp [mkNodeI, mkNodeI, mkNode] at e⟩, fun hl => h.tab k td ht hl⟩
     · obtain ⟨a, b, c⟩ := h.node k nd' hk
       exact ⟨a.mono hm, b, c⟩
   · exact h.tab
@@ -145,8 +145,8 @@ theorem clos_genStep {inp : Input} {s : Sys} {n : Name} {nd : Node} (h : ClosInv
     | some td =>
       simp only []
       have hnd : n ≠ d := by intro e; subst e; rw [hn] at hd; cases hd
-      have h1 := clos_newNode (nd.anc ++ [d]) h hd ht (.dep hin (Or.inl hdd))
-      have hn' : (setNode s d (mkNode td (nd.anc ++ [d]))).nodes n = some nd := by simp [setNode, hnd, hn]
+      have h1 := clos_newNode (s₀ := s) (d₀ := d) (nd.anc ++ [d]) h hd ht (.dep hin (Or.inl hdd))
+      have hn' : (setNode s d (mkNodeI s d td (nd.anc ++ [d]))).nodes n = some nd := by simp [setNode, hnd, hn]
       exact (clos_setNode (x := { nd with pc := .taskIter ds }) h1 hn' rfl hx).congr rfl rfl (fun _ ht => ht)
 
 theorem clos_addWaitRun {inp : Input} {s : Sys} {n : Name} {nd : Node} (h : ClosInv inp s)
@@ -332,7 +332,7 @@ theorem clos_afterCreate {inp : Input} {s : Sys} {n : Name} {nd : Node} {l : LId
     · exact clos_finishLoader s (clos_regexBlock l g h) hn' hl
 
 theorem clos_evalCreator {inp : Input} {s : Sys} {l : LId} (tname : Name) (h : ClosInv inp s) :
-    ClosInv inp (evalCreator inp s l tname) := by
+    ClosInv inp (evalCreator inp s l tname b) := by
   unfold evalCreator
   cases regTargets s.targets (targetPairs (inp.make (inp.creatorOf l) tname)) with
   | none => exact h.congr rfl rfl (fun _ ht => ht)
@@ -351,7 +351,7 @@ theorem clos_loaderStep {inp : Input} {s : Sys} {n : Name} {nd : Node} {l : LId}
   | none => exact h.congr rfl rfl (fun _ ht => ht)
   | some tT =>
     simp only []
-    have hn1 : (evalCreator inp s l (toLoad inp l n)).nodes n = some nd := by
+    have hn1 : (evalCreator inp s l (toLoad inp l n) nd.bad).nodes n = some nd := by
       rw [(evalCreator_facts inp s l (toLoad inp l n)).1]; exact hn
     split
     · split
